@@ -147,6 +147,23 @@ theorem pyFor_ret_any (xs : List α) (p : α → Bool) (r : ρ) (k : Unit → Ex
 
 end lemmas
 
+/-- `c in seen` for a set of constraints: membership in a set is decided by `==` (and the hash, which agrees
+with `==` for a lawful scheme: C12) -/
+def setMem {V} (o : VOps V) (seen : List (Con V)) (c : Con V) : Bool := seen.any (fun s => conEq o s c)
+
+/-- `sorted(set(xs))`: the set keeps one of every class of equal constraints; its iteration order is not
+specified and is the parameter `perm` -/
+def sortedSet {V} (o : VOps V) (perm : List (Con V) → List (Con V)) (xs : List (Con V)) : Except Err (List (Con V)) :=
+  sortCons o (perm (Univers.deduplicate o [] xs))
+
+/-- `VersionConstraint(comparator=c, version=v)`: `__attrs_post_init__` refuses an unknown comparator text and a
+constraint that has neither a version nor a version class -/
+def mkCon {V} : CmpVal → Option V → Except Err (Con V)
+  | .of k, some v => .ok (.mk k v)
+  | .star, _ => .ok .star
+  | .of _, none => .error .ValueError
+  | .pyNone, _ => .error .ValueError
+
 /-- `itertools.pairwise` -/
 def pairwise {α} : List α → List (α × α) := Univers.pairwise
 
